@@ -68,7 +68,16 @@ func (p *Parser) parseWithStatement() (ast.Statement, error) {
 		return stmt, nil
 	case *ast.SetOperation:
 		// For set operations, attach WITH to the left statement if it's a SELECT
-		if leftSelect, ok := stmt.Left.(*ast.SelectStatement); ok {
+		// (descend through chained set operations to the leftmost SELECT)
+		var left ast.Statement = stmt
+		for {
+			so, ok := left.(*ast.SetOperation)
+			if !ok {
+				break
+			}
+			left = so.Left
+		}
+		if leftSelect, ok := left.(*ast.SelectStatement); ok {
 			leftSelect.With = withClause
 		}
 		return stmt, nil
